@@ -90,6 +90,27 @@ pub trait ToTokens {
     fn to_tokens(&self, output: &mut TokenStream)
         requires self.tokenizable(),
         ensures final(output)@ == old(output)@ + self.toks();
+
+    /// provided methods of `quote::ToTokens`
+    fn into_token_stream(self) -> (r: TokenStream) where Self: Sized
+        requires self.tokenizable(),
+        ensures r@ == self.toks(),
+    {
+        let mut s = TokenStream::new();
+        self.to_tokens(&mut s);
+        assert(Seq::<Tok>::empty() + self.toks() =~= self.toks());
+        s
+    }
+
+    fn to_token_stream(&self) -> (r: TokenStream)
+        requires self.tokenizable(),
+        ensures r@ == self.toks(),
+    {
+        let mut s = TokenStream::new();
+        self.to_tokens(&mut s);
+        assert(Seq::<Tok>::empty() + self.toks() =~= self.toks());
+        s
+    }
 }
 
 /// `quote::ToTokens::{into_token_stream, to_token_stream}` (provided methods of the real trait)
@@ -307,10 +328,14 @@ impl ToTokens for Path {
 /// R3: `parse_quote!{ T }` yields a node that prints as exactly the tokens T
 /// (assumption: syn's parser followed by its printer is the identity on token spelling)
 pub trait FromTokens: Sized + ToTokens {
+    spec fn parsed_ok(r: Self, ts: Seq<Tok>) -> bool;
     fn from_tokens(ts: TokenStream) -> (r: Self)
-        ensures r.toks() == ts@, r.tokenizable();
+        ensures r.toks() == ts@, r.tokenizable(), Self::parsed_ok(r, ts@);
 }
+/// an expression is `Expr::Block` iff its tokens are one brace group (unlabelled, no attributes)
+pub open spec fn starts_with_brace(t: Seq<Tok>) -> bool { t.len() > 0 && t[0] == Tok::Open(Delim::Brace) }
 impl FromTokens for Expr {
+    open spec fn parsed_ok(r: Self, ts: Seq<Tok>) -> bool { (r is Block) ==> starts_with_brace(ts) }
     #[verifier::external_body]
     fn from_tokens(ts: TokenStream) -> (r: Self) { unimplemented!() }
 }
